@@ -196,7 +196,16 @@ def run(ctx):
     and judge are those of the generic pipeline"""
     import concurrent.futures as cf
     rng = ctx.rng('gen')
-    aseeds = [rng.getrandbits(40) for _ in range(ctx.scale(3, 100))]
+    # the (compile-bound, hence few) API graphs cycle through the topologies, so that even
+    # the quick tier has a lib that includes two independent libs (fan) and a diamond
+    aseeds, want = [], ['fan', 'diamond', 'chain', 'fan']
+    while len(aseeds) < ctx.scale(4, 100):
+        sd = rng.getrandbits(40)
+        nodes_, topo_ = make_graph(sd, 'api')
+        if topo_ == want[len(aseeds) % len(want)] and (
+                topo_ != 'fan' or all(any(d['kind'] in ('func', 'glob', 'const') for d in
+                                          nodes_[j].c.items) for j in (0, 1))):
+            aseeds.append(sd)
     ctx.tmp
 
     def light(n, **kw):
